@@ -85,7 +85,7 @@ def c06_worker(res: Result, i: int, n: int) -> None:
                 t = g.struct(spec)
                 g._lean += 1  # noqa: SLF001
                 try:
-                    t[fs.name] = [g._item(fs, 1) for _ in range(rng.choice((256, 300, 1000) if fs.kind == "prim" else (256, 300)))]  # noqa: SLF001
+                    t[fs.name] = [g._item(fs, 1) for _ in range(rng.choice((256, 300, 1000, 1024, 2048, 2500) if fs.kind == "prim" else (256, 300)))]  # noqa: SLF001
                 finally:
                     g._lean -= 1  # noqa: SLF001
                 trees.append(t)
